@@ -8,6 +8,7 @@ package main
 // evidence (`stubs`).
 
 import (
+	"encoding/hex"
 	"fmt"
 	"go/types"
 	"strconv"
@@ -466,6 +467,26 @@ func (m *machine) registerIntrinsics() {
 		b := args[0].([]value)
 		out := append([]value{uint8('h'), uint8('x'), uint8(':')}, b...)
 		return mkstr(out)
+	}
+
+	in["encoding/hex.DecodeString"] = func(fr *frame, fn *ssa.Function, args []value) value {
+		// inverse of the stand-in above; genuine hex text (concrete) is decoded for real
+		b := strBytes(args[0])
+		if len(b) >= 3 && b[0] == value(uint8('h')) && b[1] == value(uint8('x')) && b[2] == value(uint8(':')) {
+			return tuple{append([]value{}, b[3:]...), iface{}}
+		}
+		if cs, ok := args[0].(string); ok {
+			raw, err := hex.DecodeString(cs)
+			if err != nil {
+				return tuple{[]value(nil), fr.i.newError("encoding/hex: invalid input")}
+			}
+			out := make([]value, len(raw))
+			for k, c := range raw {
+				out[k] = c
+			}
+			return tuple{out, iface{}}
+		}
+		return tuple{[]value(nil), fr.i.newError("encoding/hex: invalid input")}
 	}
 
 	// ---- sort
